@@ -365,7 +365,9 @@ func (r *rw) walkStmtList(v reflect.Value) {
 	var out []ast.Stmt
 	for _, s := range list {
 		if r.stmt {
-			if _, empty := s.(*ast.EmptyStmt); !empty {
+			_, isCase := s.(*ast.CaseClause)
+			_, isComm := s.(*ast.CommClause)
+			if _, empty := s.(*ast.EmptyStmt); !empty && !isCase && !isComm {
 				pos := r.fset.Position(s.Pos())
 				out = append(out, &ast.ExprStmt{X: call(r.vs("Y"),
 					&ast.BasicLit{Kind: token.STRING, Value: strconv.Quote(r.base)},
